@@ -18,7 +18,7 @@ SHIFT = {"GaleShapley.scf": "all", "Irving.scf": "all", "DoubleLambdaTSF": "all"
 
 class C13(Prop):
     layouts = True
-    translators = ['scoring', 'randscoring', 'gsres', 'gshosp', 'elicitvoting']   # scoring rules, break_tie, BaseRandomizedScoring and both Gale-Shapley loops regenerated from the source on every run
+    translators = ['scoring', 'randscoring', 'gsres', 'gshosp', 'elicitvoting', 'validators']   # scoring rules, break_tie, BaseRandomizedScoring and both Gale-Shapley loops regenerated from the source on every run
     pid = "C13"
     sources = ["socialchoicekit/utils.py", "socialchoicekit/deterministic_scoring.py", "socialchoicekit/deterministic_tournament.py",
                "socialchoicekit/randomized_scoring.py", "socialchoicekit/deterministic_multiround.py", "socialchoicekit/deterministic_matching.py"]
